@@ -1,7 +1,7 @@
 (* C12 -- request tokens and buffer accounting return to zero at quiescence.
    Property theorems only; proofs live in proofs/ProtoProofs.v. *)
 From Coq Require Import NArith ZArith List Bool String.
-From GB Require Import Consts Words Bucket Proto CheckC11 ProtoProofs.
+From GB Require Import Consts Words Bucket RefMap Proto CheckC11 ProtoProofs.
 Import ListNotations.
 Open Scope N_scope.
 
@@ -30,6 +30,21 @@ Theorem C12_leaks_refuted :
   a_set_c a = 1%Z /\ a_set_s a = 3%Z /\ a_tokens_out a = 0%Z.
 Proof. vm_compute. repeat split; reflexivity. Qed.
 Print Assumptions C12_leaks_refuted.
+
+(* finding F23 (repaired by a fix: commit): GetMulti fetched a repeated key again; the earlier item, replaced in the map
+   of found items, was never released.  The model is parameterised by Consts.getmulti_skips_duplicates, translated from
+   gobeansdb/store.go; with the flag off "get k k" charges GetData twice and hands back one item, with the flag on (the
+   tree as it stands) it charges once. *)
+Theorem C12_repeated_key_refuted :
+  let m := [(unhex "6b", mkE (unhex "616263") 0 1%Z)] in           (* k -> "abc" *)
+  let keys := [unhex "6b"; unhex "6b"] in
+  (let '(_, _, items, a) := get_many_gen RefMap.smap rm_get false m keys acct0 false [] in (a_get_c a, List.length items)) = (2%Z, 1%nat) /\
+  (let '(_, _, items, a) := get_many_gen RefMap.smap rm_get true m keys acct0 false [] in (a_get_c a, List.length items)) = (1%Z, 1%nat).
+Proof. vm_compute. split; reflexivity. Qed.
+Print Assumptions C12_repeated_key_refuted.
+
+Theorem C12_repeated_key_repaired_in_code : getmulti_skips_duplicates = true.
+Proof. reflexivity. Qed.
 
 (* non-vacuity: an ordinary session is clean end to end and balances to zero *)
 Example C12_clean_session :
